@@ -20,6 +20,8 @@ func (w *World) registerMoreIntrinsics() {
 	w.registerTimeIntrinsics()
 	w.registerHTTPEffects()
 	w.registerCryptoIntrinsics()
+	w.registerReflectIntrinsics()
+	w.registerCipherIntrinsics()
 	terms := func(e *Exec, v Value) []*Term {
 		var ts []*Term
 		for _, x := range e.sliceElems(v.(*SliceVal)) {
